@@ -47,7 +47,7 @@ func quorum(n int) int {
 func TestC09(t *testing.T) {
 	r := mon.Open(t, "C09")
 	mon.Register(r, "head", c09Run)
-	kinds := []string{"h", "h", "h", "forged", "invalid", "wrong-chain", "notfound", "garbage", "hang", "reset"}
+	kinds := []string{"h", "h", "h", "forged", "invalid", "wrong-chain", "no-chain", "notfound", "garbage", "hang", "reset"}
 	rng := r.Rand("c09")
 	// all arrival orders for small peer sets
 	base := [][]c09Ans{
@@ -157,6 +157,8 @@ func c09Run(c *mon.Case, p c09P) {
 				return chain.Variant(vh.VInvalidFields, a.H, uint64(i))
 			case "wrong-chain":
 				return chain.Variant(vh.VWrongChain, a.H, uint64(i))
+			case "no-chain":
+				return chain.Variant(vh.VNoChain, a.H, uint64(i))
 			}
 			return nil
 		}
